@@ -859,6 +859,10 @@ func (p *sshFxpReadPacket) getDataSlice(alloc *allocator, orderID uint32, maxTxP
 	if alloc != nil {
 		// GetPage returns a slice with capacity = maxMsgLength this is enough to avoid new allocations in
 		// sshFxpDataPacket.MarshalBinary
+		if dataLen > maxMsgLength {
+			// a page cannot hold more, whatever WithMaxTxPacket allows
+			dataLen = maxMsgLength
+		}
 		return alloc.GetPage(orderID)[:dataLen]
 	}
 
